@@ -32,4 +32,9 @@ def extra_checks(ft, tier, seed):
 
 
 def find_counterexample(fn, violation, outdir):
-    return harness.run_json("bounded/spec.py", ["--find", PROPERTY, fn or "-", outdir])
+    r = harness.run_json("bounded/spec.py", ["--find", PROPERTY, fn or "-", outdir])
+    if not r.get("found"):
+        r2 = harness.run_json("bounded/spec_extra.py", ["--find", PROPERTY, fn or "-", outdir])          # additional replay corpus
+        if r2.get("found"):
+            return r2
+    return r
